@@ -324,6 +324,12 @@ def generate(rng, tier, run):
                 ops.append(['derive_delta', i, 'set_attrs', None, ch])
             elif z < 0.3 and '@repeat' not in ch:
                 ops.append(['derive_delta', i, 'chain', rng.choice(DOM['math_mode_delimiter']), ch])
+            elif z < 0.34 and '@repeat' not in ch:
+                # biased to the switches (what a delta that "only flips a flag" would set)
+                if rng.random() < 0.6:
+                    ch = {k: rng.choice(DOM[k]) for k in rng.sample([f for f in sorted(DOM) if f.startswith('enable_')],
+                                                                    rng.randint(1, 2))}
+                ops.append(['derive_delta', i, 'replace_chain', rng.randrange(100), ch])
             else:
                 ops.append(['derive', i, ch])
             if rng.random() < 0.25:
@@ -514,6 +520,36 @@ def parse_dump(ps, s, tolerant):
     return res, w.sim_clock[0]
 
 
+PARSER_PROBES = [('math', 'x $y$'), ('math', '$a$ b'), ('math', '\\[c\\] d'), ('group', '{a}b'), ('group', 'a{b}'),
+                 ('expression', '\\ab c'), ('optsq', '[o] x'), ('optsq', 'x [o]'), ('anygroup', '<a>(b)'), ('single', '%c\nx')]
+
+
+def parser_dump(ps, name, s, tolerant):
+    """One individual parser object run with the state (the parsers derive further states, and
+    their error paths look at the state's delimiter lists)."""
+    from pylatexenc.latexnodes import LatexWalkerError
+    from pylatexenc.latexnodes import parsers as P
+    parser = {'math': lambda: P.LatexMathParser(math_mode_delimiters=None),
+              'group': lambda: P.LatexDelimitedGroupParser(delimiters=('{', '}')),
+              'anygroup': lambda: P.LatexDelimitedGroupParser(delimiters=None, optional=True),
+              'expression': lambda: P.LatexExpressionParser(),
+              'optsq': lambda: P.LatexOptionalSquareBracketsParser(),
+              'single': lambda: P.LatexSingleNodeParser()}[name]()
+    w = simparse.make_walker(s, default_parsing_state=ps, tolerant_parsing=tolerant)
+    try:
+        nodes, delta = w.parse_content(parser, parsing_state=ps)
+        res = D.Dumper().result(nodes, delta)
+    except LatexWalkerError as e:
+        res = D.dump_error(e)
+    except simparse.SimBudget:
+        res = dict(simparse.BUDGET)
+    except RecursionError:
+        res = ['EXC', 'RecursionError']
+    except Exception as e:
+        res = ['EXC', type(e).__name__, D.scrub(str(e))]
+    return res, w.sim_clock[0]
+
+
 _walker_cache = {}
 CUR = {'opi': 0}
 
@@ -531,6 +567,14 @@ def derive_by_delta(ps, how, delim, changes):
         delta = ParsingStateDeltaLeaveMathMode()
     elif how == 'set_attrs':
         delta = ParsingStateDelta(set_attributes=changes)
+    elif how == 'replace_chain':
+        # a chain whose first link hands over an existing state object (delim = that object) and
+        # whose later links change it: the object handed over must stay as it is
+        from pylatexenc.latexnodes import ParsingStateDeltaReplaceParsingState
+        links = [ParsingStateDeltaReplaceParsingState(set_parsing_state=delim)]
+        for k in sorted(changes):
+            links.append(ParsingStateDelta(set_attributes={k: changes[k]}))
+        delta = ParsingStateDeltaChained(links)
     else:
         delta = ParsingStateDeltaChained([ParsingStateDeltaEnterMathMode(math_mode_delimiter=delim), None,
                                           ParsingStateDelta(set_attributes=changes)])
@@ -560,6 +604,13 @@ def behaviour(ps, strings, parse_strings, stats):
                 stats.inc('whole-parse-comparisons')
                 if res == simparse.BUDGET:
                     stats.inc('probe:budget-exhausted')
+        # individual parsers, two per probe set (chosen by the set: derived and fresh side agree)
+        k0 = len(''.join(strings)) % len(PARSER_PROBES)
+        for name, s in (PARSER_PROBES[k0], PARSER_PROBES[(k0 + 3) % len(PARSER_PROBES)]):
+            res, t = parser_dump(ps, name, s, False)
+            out['parse']['@%s|%s' % (name, s)] = res
+            stats.inc('ticks', t)
+            stats.inc('single-parser-comparisons')
     return out
 
 
@@ -642,7 +693,8 @@ def execute(program):
         b = behaviour(st['ps'], strings, pstrings, stats)
         stored = st['behaviour']
         same = all(b['tokens'][x] == stored['tokens'].get(x) for x in b['tokens']) and \
-            all(b['parse'][x] == stored['parse'].get(x) for x in b['parse'])
+            all(b['parse'][x] == stored['parse'].get(x) for x in b['parse']
+                if not x.startswith('@') or x in stored['parse'])      # single-parser probes vary with the probe set
         if not same:
             raise Violation('sub_context-never-alters-states', op_index=opi, state=j,
                             field='<behaviour>', observed='state tokenizes/parses differently than '
@@ -696,6 +748,12 @@ def execute(program):
                 stats.inc('op:probe')
             elif kind in ('derive', 'derive_delta'):
                 j = op[1] % len(live)
+                start_ps = live[j]['ps']
+                if kind == 'derive_delta' and op[2] == 'replace_chain':
+                    # the chain first swaps in an existing state object X, then changes it: X plays
+                    # the parent's part in every expectation below
+                    j = op[3] % len(live)
+                    stats.inc('probe:chain-starting-from-an-existing-state-object')
                 parent = live[j]
                 if len(live) >= max_live:
                     outcome = 'skipped'
@@ -712,7 +770,8 @@ def execute(program):
                         enter = {'in_math_mode': True, 'math_mode_delimiter': op[3]}
                         leave = {'in_math_mode': False, 'math_mode_delimiter': None}
                         steps = {'enter_math': [enter], 'leave_math': [leave], 'set_attrs': [ch],
-                                 'chain': [enter, ch]}[how]
+                                 'chain': [enter, ch],
+                                 'replace_chain': [{k: ch[k]} for k in sorted(ch)] or [{}]}[how]
                         stats.inc('op:derive_delta-' + how)
                     changes = {k: decode(k, v) for k, v in ch.items()}
                     want_model = before[j]
@@ -739,7 +798,8 @@ def execute(program):
                         if kind == 'derive':
                             child = parent['ps'].sub_context(**changes)
                         else:
-                            child = derive_by_delta(parent['ps'], op[2], op[3], changes)
+                            child = derive_by_delta(start_ps, op[2], parent['ps'] if op[2] == 'replace_chain' else op[3],
+                                                    changes)
                             if child is parent['ps']:
                                 # "might be the same object if no changes need to be applied"
                                 if plain_fields(child) != want:
@@ -913,6 +973,8 @@ def shrink_candidates(program):
                     yield repl(['derive', j, op[2]])
         if op[0] in ('derive', 'derive_delta') and op[-1] == '@lazy':
             yield repl(op[:-1])
+        if op[0] == 'derive_delta' and op[2] == 'replace_chain':
+            yield repl(['derive', op[3], op[4]])
         if op[0] == 'derive_delta':
             eq = {'enter_math': {'in_math_mode': True, 'math_mode_delimiter': op[3]},
                   'leave_math': {'in_math_mode': False, 'math_mode_delimiter': None},
@@ -956,7 +1018,7 @@ TIERS = {
     'thorough': {'runs': 45000, 'wall_cap': 3600},
 }
 EXPECTED_PROBES = ['math-lists-changed-while-in-math-mode', 'derive-without-effective-change',
-                   'derive-repeats-current-values', 'chain-depth-4']
+                   'derive-repeats-current-values', 'chain-depth-4', 'chain-depth-33+', 'siblings-of-one-parent-17']
 
 STATES_MEASURE = ('distinct (field values, per-step inheritance pattern of the three cached table groups) pairs, derived from the program, not from private attributes')
 
